@@ -35,7 +35,7 @@ def cases(tier, seed):
         for after in (False, True):
             for g in (['naive'] if cl == 'orderbook' else (['cet'] if cl.startswith('contract_aware') else (GRIDS if tier == 'thorough' or cl in ('contract_dicts',) else ['naive']))):      # (zone-aware dates need a zone-aware grid)
                 out.append(('%s_%s_%s' % (cl, 'after_setup' if after else 'fresh', g), dict(kind='asset', cls=cl, after=after, grid=g)))
-    for g in ('naive', 'cet', 'cet_dst_repeated_hour', 'us_eastern', 'day_unit', 'quarter_hours_minute_unit_cet', 'seconds_cet'):
+    for g in ('naive', 'cet', 'cet_dst_repeated_hour', 'us_eastern', 'day_unit', 'quarter_hours_minute_unit_cet', 'seconds_cet', 'days_spelled_d', 'days_spelled_1d_cet'):
         if tier != 'thorough' and g == 'us_eastern':
             continue
         out.append(('portfolio_with_grid_%s' % g, dict(kind='portfolio', grid=g)))
@@ -67,6 +67,9 @@ def mk_grid(g):
     if g == 'seconds_cet':       # dates with seconds: 20-second steps starting at 00:00:20
         s0 = pd.Timestamp(shapes.T0) + pd.Timedelta(seconds=20)
         return eao.assets.Timegrid(s0.to_pydatetime(), (s0 + pd.Timedelta(seconds=20 * T)).to_pydatetime(), freq='20s', main_time_unit='min', timezone='CET')
+    if g in ('days_spelled_d', 'days_spelled_1d_cet'):      # frequency strings in spellings other than pandas' canonical one
+        return eao.assets.Timegrid(shapes.T0, shapes.T0 + dt.timedelta(days=T), freq='d' if g == 'days_spelled_d' else '1d',
+                                   timezone=None if g == 'days_spelled_d' else 'CET')
     if g == 'cet_dst_repeated_hour':
         s = pd.Timestamp('2021-10-31 01:00', tz='UTC')         # = 02:00+01:00, the second 02:00 of that night
         return eao.assets.Timegrid(s.tz_convert('CET'), (s + pd.Timedelta(hours=T)).tz_convert('CET'), freq='h', timezone='CET')
@@ -238,7 +241,12 @@ def portfolio_scenario(D, grid):
         ct.start = (pd.Timestamp(shapes.T0) + pd.Timedelta(seconds=40)).to_pydatetime()
         ct.end = (pd.Timestamp(shapes.T0) + pd.Timedelta(seconds=80)).to_pydatetime()
     st = shapes.mk_storage(D, 'sto', nA, eff=0.75)
-    pf = eao.portfolio.Portfolio([ct, st])
+    assets = [ct, st]
+    if grid.startswith('days_spelled'):
+        # a plant with its own frequency, spelled like the grid's (CHPAsset compares the two strings)
+        ct.min_take = None
+        assets.append(shapes.mk_plant(D, 'pl', [nA], T, price='p', fuel=False, mr=0, freq='d' if grid == 'days_spelled_d' else '1d'))
+    pf = eao.portfolio.Portfolio(assets)
     g = mk_grid(grid)
     pf.set_timegrid(g)
     pr = mk_prices(D, 'a')
